@@ -40,7 +40,7 @@ def gen_valid_text(rng, env, depth, labels):
             continue
         toks = X.render(rng, t)
         s = X.join(rng, toks)
-        if s.startswith("'"):
+        if s.startswith("'") and rng.random() < 0.5:
             s = '(' + s + ')'
         nops = sum(1 for x in toks if x in X.LEVEL or x == '-')
         return s, nops
@@ -111,7 +111,13 @@ def gen_case(rng, tier):
 
 def generate(rng, tier):
     n = 450 if tier == 'quick' else 10000
-    return [gen_case(rng, tier) for _ in range(n)]
+    cases = [gen_case(rng, tier) for _ in range(n)]
+    for c in cases:
+        # error / malformed / corner texts are observed through both channels: a 512-bit numeric operand and a .8byte line
+        # (a blank text is "no value" for a data line, and ''' is an empty string followed by a quote there)
+        if c['kind'] != 'valid' and rng.random() < 0.5 and c['exprs'][0].strip() and "'''" not in c['exprs'][0]:
+            c['via_operand'] = False
+    return cases
 
 
 def asm_text(case):
